@@ -543,4 +543,4 @@ def _obligations():
 
 
 def obligations():
-    return _obligations() + [labels_obligation("C20"), selectors_obligation("C20"), effects_obligation("C20"), plumbing_obligation("C20"), overrides_obligation("C20"), options_obligation("C20"), handlers_obligation("C20")]
+    return _obligations() + [labels_obligation("C20"), selectors_obligation("C20"), mutations_obligation("C20"), effects_obligation("C20"), plumbing_obligation("C20"), overrides_obligation("C20"), options_obligation("C20"), handlers_obligation("C20")]
